@@ -151,6 +151,23 @@ def run_property(mod, tier, seed, replay=None):
                 pv.append((i, msg))
     if hasattr(mod, "violated_all"):
         pv += mod.violated_all(lines, model, checked, release)
+    # twins: pairs of requests (variant, reference) that the property says must be answered identically by the
+    # implementation (the same operation reached through another entry point, buffer size or memory layout)
+    tw = getattr(mod, "TWINS", None)
+    if tw:
+        where = {}
+        for i, ln in enumerate(lines):
+            where.setdefault(ln, i)
+        cov["twin_pairs"] = 0
+        for (a, b, what) in tw:
+            if a in where and b in where:
+                ia, ib = where[a], where[b]
+                cov["twin_pairs"] += 1
+                for prof, ans in (("checked", checked), ("wrapping", release)):
+                    if ans[ia] != ans[ib] and "@model" not in (ans[ia], ans[ib]):
+                        pv.append((ia, "%s build: %s -- %s answers %s..., the reference call %s answers %s..." % (
+                            prof, what, a.replace("@impl ", "").split()[0], ans[ia][:60], b.replace("@impl ", "").split()[0], ans[ib][:60])))
+                        break
     for i, ln in enumerate(lines):
         for prof, ans in (("checked", checked), ("wrapping", release)):
             if ans[i] == "timeout" and (model[i].startswith("ok") or model[i] == "@impl"):
